@@ -3,10 +3,10 @@ C05 — A task sees exactly the data published by the tasks that causally preced
 Property theorems over Mistral/Model/Ctx.lean (L2), which is tied to
 context_versioning.py / data_flow.py by the `ctx` correspondence stream.
 -/
-import Mistral.Lemmas.Ctx
+import Mistral.Lemmas.Hist
 
 namespace Mistral.Props.C05
-open Mistral Mistral.Ctx Mistral.Dict
+open Mistral Mistral.Ctx Mistral.Dict Mistral.Hist
 
 /-- "evaluate_task_outbound_context = copy of in_context updated with published":
     a published variable shadows the inherited one, everything else is inherited. -/
@@ -35,101 +35,179 @@ theorem outbound_lookup (c : Ctx) (pub : Dict) (hu : UniqueKeys pub) (k : String
   rw [this]
   cases get? pub k <;> rfl
 
-/-- "merge_context_by_version keeps the value with the higher version", key by key, for
-    contexts whose right-hand values are not dictionaries: the right value replaces the left
-    one only if the key is new on the left or its version on the right is STRICTLY higher. -/
-theorem merge_value_rule (l r : Ctx) (hf : FlatD (stripInternal r.data))
-    (hu : UniqueKeys (stripInternal r.data)) (k : String) :
+/-! ### the merge rule, for arbitrarily nested values
+
+`_merge_ctx` is a structural recursion on the two values: `merge_value_rule` is its step on a
+dictionary (key by key), `merge_node_rule` its step on a pair of values (recurse exactly when BOTH are
+dictionaries, else the version of the node decides) and `merge_leaf_rule` the closed form along a whole
+path of keys. -/
+
+/-- "merge_context_by_version keeps the value with the higher version", key by key, ANY values: a key of
+    the right context that is new on the left is copied, a key both have is merged by `mergeVal` under
+    the version key of the variable, everything else is the left's. -/
+theorem merge_value_rule (l r : Ctx) (hu : UniqueKeys (stripInternal r.data)) (k : String) :
     get? (mergeByVersion l r).data k =
       match get? (stripInternal r.data) k with
       | none => get? (stripInternal l.data) k
       | some v => match get? (stripInternal l.data) k with
         | none => some v
-        | some lval => if ver r.vers k > ver l.vers k then some v else some lval := by
+        | some lval => some (mergeVal l.vers r.vers k lval v) := by
   unfold mergeByVersion
-  exact mergeKv_flat_get _ _ _ _ hf hu k
+  exact mergeKv_get _ _ _ _ _ hu k
 
-/-- "a value published inside one branch is never replaced at a join by a stale copy another
-    branch merely inherited": a copy with a version that is not strictly higher never
-    replaces the value already present, whichever side it comes from. -/
-theorem stale_copy_never_wins (l r : Ctx) (hf : FlatD (stripInternal r.data))
-    (hu : UniqueKeys (stripInternal r.data)) (k : String) (lval : Val)
-    (hl : get? (stripInternal l.data) k = some lval)
-    (hstale : ver r.vers k ≤ ver l.vers k) :
-    get? (mergeByVersion l r).data k = some lval := by
-  rw [merge_value_rule l r hf hu k, hl]
-  cases get? (stripInternal r.data) k with
-  | none => rfl
-  | some v =>
-    have : ¬ (ver r.vers k > ver l.vers k) := by omega
-    simp [this]
+/-- "recursive merge of dicts; a non-dict replaces / gets replaced": two dictionaries are merged key by
+    key under the dotted version keys `p.k`; in every other case the right value replaces the left one
+    exactly when the version of the node `p` is STRICTLY higher on the right. -/
+theorem merge_node_rule (lv rv : Vers) (p : String) (a b : Val) :
+    mergeVal lv rv p a b =
+      match a, b with
+      | .obj akv, .obj bkv => .obj (mergeKv lv rv (some p) akv bkv)
+      | a, b => if ver rv p > ver lv p then b else a := by
+  cases a <;> cases b <;> first | exact mergeVal_obj_obj _ _ _ _ _ | exact mergeVal_not_both _ _ _ _ _ rfl
 
-/-- … and a strictly newer value always wins. -/
-theorem newer_value_wins (l r : Ctx) (hf : FlatD (stripInternal r.data))
-    (hu : UniqueKeys (stripInternal r.data)) (k : String) (v : Val)
-    (hr : get? (stripInternal r.data) k = some v)
-    (hnew : ver l.vers k < ver r.vers k) :
-    get? (mergeByVersion l r).data k = some v := by
-  rw [merge_value_rule l r hf hu k, hr]
-  cases get? (stripInternal l.data) k with
-  | none => rfl
-  | some lval => simp [hnew]
+/-- one level down: the merged dictionary, key by key (the recursion step of `merge_node_rule`) -/
+theorem merge_dict_rule (lv rv : Vers) (p : String) (akv bkv : Dict) (hu : UniqueKeys bkv) (k : String) :
+    get? (mergeKv lv rv (some p) akv bkv) k =
+      match get? bkv k with
+      | none => get? akv k
+      | some v => match get? akv k with
+        | none => some v
+        | some lval => some (mergeVal lv rv (p ++ "." ++ k) lval v) :=
+  mergeKv_get _ _ _ _ _ hu k
 
-/-- Order independence at a join, for flat contexts that are *consistent* (equal versions of a
-    key carry equal values — what holds when no two concurrent branches publish the same
-    variable): both merge orders give the same value for every key. -/
-theorem merge_order_independent_partial (a b : Ctx)
-    (hfa : FlatD (stripInternal a.data)) (hua : UniqueKeys (stripInternal a.data))
-    (hfb : FlatD (stripInternal b.data)) (hub : UniqueKeys (stripInternal b.data))
-    (k : String)
-    (hcons : ∀ va vb, get? (stripInternal a.data) k = some va → get? (stripInternal b.data) k = some vb →
-      ver a.vers k = ver b.vers k → va = vb) :
-    get? (mergeByVersion a b).data k = get? (mergeByVersion b a).data k := by
-  rw [merge_value_rule a b hfb hub k, merge_value_rule b a hfa hua k]
-  cases ha : get? (stripInternal a.data) k with
-  | none => cases hb : get? (stripInternal b.data) k <;> simp
+/-- the closed form at a LEAF PATH `k0.k1...kn` that both contexts hold (or lack the variable of): the
+    right leaf wins exactly when the variable is new on the left or the version of the PATH is strictly
+    higher on the right; the version of the path becomes the maximum. -/
+theorem merge_leaf_rule (l r : Ctx) (k0 : String) (rest : List String) (hk : k0 ≠ "__task_execution")
+    (hl : ShapeOK k0 rest l) (hr : ShapeOK k0 rest r) :
+    getPath (mergeByVersion l r).data k0 rest =
+      match getPath r.data k0 rest with
+      | none => getPath l.data k0 rest
+      | some y => match getPath l.data k0 rest with
+        | none => some y
+        | some x => if ver r.vers (keyOf k0 rest) > ver l.vers (keyOf k0 rest) then some y else some x :=
+  (merge_at_path k0 rest hk l r hl hr).2.2
+
+/-- "a value published inside one branch is never replaced at a join by a stale copy another branch
+    merely inherited", at ANY depth: a leaf the left context holds at a path survives the merge whenever
+    the right context's version of that path is not strictly higher - whatever the right context holds
+    at the path, provided its value of the variable has not another shape ABOVE the path (no non-dict at a
+    proper prefix). -/
+theorem stale_copy_never_wins (l r : Ctx) (k0 : String) (rest : List String) (hk : k0 ≠ "__task_execution")
+    (hur : UniqueKeys r.data) (x : Val) (hl : getPath l.data k0 rest = some x) (hx : x.isObj = false)
+    (hshape : ∀ b, get? r.data k0 = some b → NoLeafAbove b rest ∧ UniqAlong b rest)
+    (hstale : ver r.vers (keyOf k0 rest) ≤ ver l.vers (keyOf k0 rest)) :
+    getPath (mergeByVersion l r).data k0 rest = some x := by
+  have hsl : get? (stripInternal l.data) k0 = get? l.data k0 := get?_erase_other _ _ _ (fun e => hk e.symm)
+  have hsr : get? (stripInternal r.data) k0 = get? r.data k0 := get?_erase_other _ _ _ (fun e => hk e.symm)
+  rw [getPath_of_get?] at hl
+  rw [getPath_of_get?, merge_value_rule l r (uniqueKeys_erase _ _ hur) k0, hsl, hsr]
+  cases hga : get? l.data k0 with
+  | none => simp [hga] at hl
+  | some a =>
+    simp only [hga] at hl
+    cases hgb : get? r.data k0 with
+    | none => exact hl
+    | some b =>
+      obtain ⟨h1, h2⟩ := hshape b hgb
+      exact mergeVal_stale _ _ rest k0 a b x hl hx h1 h2 hstale
+
+/-- ... and a strictly newer leaf always wins, at any depth (the left value of the variable has not
+    another shape above the path). -/
+theorem newer_value_wins (l r : Ctx) (k0 : String) (rest : List String) (hk : k0 ≠ "__task_execution")
+    (hur : UniqueKeys r.data) (y : Val) (hr : getPath r.data k0 rest = some y) (hy : y.isObj = false)
+    (hua : ∀ b, get? r.data k0 = some b → UniqAlong b rest)
+    (hshape : ∀ a, get? l.data k0 = some a → NoLeafAbove a rest)
+    (hnew : ver l.vers (keyOf k0 rest) < ver r.vers (keyOf k0 rest)) :
+    getPath (mergeByVersion l r).data k0 rest = some y := by
+  have hsl : get? (stripInternal l.data) k0 = get? l.data k0 := get?_erase_other _ _ _ (fun e => hk e.symm)
+  have hsr : get? (stripInternal r.data) k0 = get? r.data k0 := get?_erase_other _ _ _ (fun e => hk e.symm)
+  rw [getPath_of_get?] at hr
+  rw [getPath_of_get?, merge_value_rule l r (uniqueKeys_erase _ _ hur) k0, hsl, hsr]
+  cases hgb : get? r.data k0 with
+  | none => simp [hgb] at hr
+  | some b =>
+    simp only [hgb] at hr
+    cases hga : get? l.data k0 with
+    | none => exact hr
+    | some a => exact mergeVal_newer _ _ rest k0 a b y hr hy (hshape a hga) (hua b hgb) hnew
+
+/-- Order independence at a join (commutativity up to ties), at any depth: for two contexts that hold a
+    leaf at the path (or lack the variable) and are CONSISTENT there (equal versions of the path carry
+    equal leaves - what holds when no two concurrent branches publish it) both merge orders give the
+    same leaf and the same version. -/
+theorem merge_order_independent_partial (a b : Ctx) (k0 : String) (rest : List String)
+    (hk : k0 ≠ "__task_execution") (ha : ShapeOK k0 rest a) (hb : ShapeOK k0 rest b)
+    (hcons : ∀ va vb, getPath a.data k0 rest = some va → getPath b.data k0 rest = some vb →
+      ver a.vers (keyOf k0 rest) = ver b.vers (keyOf k0 rest) → va = vb) :
+    getPath (mergeByVersion a b).data k0 rest = getPath (mergeByVersion b a).data k0 rest ∧
+    ver (mergeByVersion a b).vers (keyOf k0 rest) = ver (mergeByVersion b a).vers (keyOf k0 rest) := by
+  obtain ⟨_, hv1, hp1⟩ := merge_at_path k0 rest hk a b ha hb
+  obtain ⟨_, hv2, hp2⟩ := merge_at_path k0 rest hk b a hb ha
+  refine ⟨?_, by rw [hv1, hv2]; omega⟩
+  rw [hp1, hp2]
+  cases hga : getPath a.data k0 rest with
+  | none => cases hgb : getPath b.data k0 rest <;> simp
   | some va =>
-    cases hb : get? (stripInternal b.data) k with
+    cases hgb : getPath b.data k0 rest with
     | none => simp
     | some vb =>
       simp only
-      by_cases h1 : ver b.vers k > ver a.vers k
-      · have h2 : ¬ (ver a.vers k > ver b.vers k) := by omega
+      by_cases h1 : ver b.vers (keyOf k0 rest) > ver a.vers (keyOf k0 rest)
+      · have h2 : ¬ (ver a.vers (keyOf k0 rest) > ver b.vers (keyOf k0 rest)) := by omega
         simp [h1, h2]
-      · by_cases h2 : ver a.vers k > ver b.vers k
+      · by_cases h2 : ver a.vers (keyOf k0 rest) > ver b.vers (keyOf k0 rest)
         · simp [h1, h2]
-        · have : ver a.vers k = ver b.vers k := by omega
-          have := hcons va vb ha hb this
+        · have := hcons va vb hga hgb (by omega)
           simp [h1, h2, this]
 
-/-- "the one published by the latest task on the causal path": a task's own publish is
-    strictly newer than everything it inherited, so when its outbound context meets (at a later
-    join) a copy of the context it started from, the published value wins in EITHER merge order.
-    Proved for publishes and contexts without dictionary values (shape-preserving publishes). -/
-theorem later_publish_wins_partial (c : Ctx) (pub : Dict) (k : String) (v : Val)
-    (hfp : FlatD pub) (hup : UniqueKeys pub)
-    (hk : get? pub k = some v) (hint : k ≠ "__task_execution")
-    (hfo : FlatD (stripInternal (outbound c pub).data))
-    (huo : UniqueKeys (stripInternal (outbound c pub).data))
-    (hfs : FlatD (stripInternal c.data)) (hus : UniqueKeys (stripInternal c.data)) :
-    get? (mergeByVersion c (outbound c pub)).data k = some v ∧
-    get? (mergeByVersion (outbound c pub) c).data k = some v := by
-  have hmem : k ∈ pub.map (·.1) := by
-    apply Decidable.byContradiction
-    intro hn
-    rw [get?_none_of_not_mem pub k hn] at hk; cases hk
-  have hcnt : 0 < (pub.map (·.1)).count k := List.count_pos_iff.mpr hmem
-  have hver : ver c.vers k < ver (outbound c pub).vers k := by
-    unfold outbound
-    simp only [leafKeys_flat pub hfp, ver_bump]
-    omega
-  have hout : get? (stripInternal (outbound c pub).data) k = some v := by
-    unfold stripInternal
-    rw [get?_erase_other _ _ _ (fun e => hint e.symm), outbound_lookup c pub hup k, hk]
+/-- Associativity of the version merge at a leaf path, WITHOUT any tie hypothesis (the leftmost leaf of
+    maximal version wins under either bracketing): a join may fold its parents in any grouping. -/
+theorem merge_associative (a b c : Ctx) (k0 : String) (rest : List String) (hk : k0 ≠ "__task_execution")
+    (ha : ShapeOK k0 rest a) (hb : ShapeOK k0 rest b) (hc : ShapeOK k0 rest c) :
+    getPath (mergeByVersion (mergeByVersion a b) c).data k0 rest =
+      getPath (mergeByVersion a (mergeByVersion b c)).data k0 rest ∧
+    ver (mergeByVersion (mergeByVersion a b) c).vers (keyOf k0 rest) =
+      ver (mergeByVersion a (mergeByVersion b c)).vers (keyOf k0 rest) := by
+  obtain ⟨sab, vab, _⟩ := merge_at_path k0 rest hk a b ha hb
+  obtain ⟨sbc, vbc, _⟩ := merge_at_path k0 rest hk b c hb hc
+  obtain ⟨_, v1, _⟩ := merge_at_path k0 rest hk _ c sab hc
+  obtain ⟨_, v2, _⟩ := merge_at_path k0 rest hk a _ ha sbc
+  refine ⟨?_, by rw [v1, v2, vab, vbc]; omega⟩
+  rw [merge_at_path_cell k0 rest hk _ c sab hc, merge_at_path_cell k0 rest hk a _ ha sbc,
+    merge_at_path_cell k0 rest hk a b ha hb, merge_at_path_cell k0 rest hk b c hb hc, vab, vbc]
+  exact cell_assoc (getPath a.data k0 rest) (getPath b.data k0 rest) (getPath c.data k0 rest) _ _ _
+    ha.absent hb.absent hc.absent
+
+/-- "the one published by the latest task on the causal path", arbitrarily nested values: a task's own
+    publication is strictly newer than everything it inherited, so when its outbound context meets (at a
+    later join) a copy of the context it started from, EVERY LEAF of the published value wins, in EITHER
+    merge order.  The excluded inputs are explicit and decidable: the inherited value of the variable must
+    not hold a non-dict above the leaf (`NoLeafAbove`: a scalar is not republished as a dictionary - the
+    shape change of `later_publish_wins_full_fails`); republishing a dictionary as a scalar, dropping or
+    adding leaves is covered. -/
+theorem later_publish_wins_partial (c : Ctx) (pub : Dict) (k0 : String) (rest : List String) (v : Val)
+    (hup : UniqueKeys pub) (hk0 : get? pub k0 = some v) (hleaf : LeafPath v rest)
+    (hk : k0 ≠ "__task_execution") (huc : UniqueKeys c.data)
+    (hshape : ∀ a, get? c.data k0 = some a → NoLeafAbove a rest ∧ UniqAlong a rest) :
+    getPath (mergeByVersion c (outbound c pub)).data k0 rest = getPathVal v rest ∧
+    getPath (mergeByVersion (outbound c pub) c).data k0 rest = getPathVal v rest := by
+  obtain ⟨y, hy, hyo⟩ := LeafPath.get rest v hleaf
+  have hm : keyOf k0 rest ∈ leafKeysKv none pub :=
+    leafKeysKv_mem_of_get? none _ pub k0 v hk0 (by rw [path_none]; exact leafKey_mem rest k0 v hleaf)
+  have hver : ver c.vers (keyOf k0 rest) < ver (outbound c pub).vers (keyOf k0 rest) := by
+    have : 0 < (leafKeysKv none pub).count (keyOf k0 rest) := List.count_pos_iff.mpr hm
+    unfold outbound; simp only [ver_bump]; omega
+  have hget : get? (outbound c pub).data k0 = some v := by
+    unfold outbound; rw [get?_update_unique _ _ hup k0, hk0]
+  have hout : getPath (outbound c pub).data k0 rest = some y := by rw [getPath_of_get?, hget]; exact hy
+  have huo : UniqueKeys (outbound c pub).data := by unfold outbound; exact uniqueKeys_update _ _ huc
+  rw [hy]
   constructor
-  · exact newer_value_wins c (outbound c pub) hfo huo k v hout hver
-  · apply stale_copy_never_wins (outbound c pub) c hfs hus k v hout
-    omega
+  · exact newer_value_wins c (outbound c pub) k0 rest hk huo y hout hyo
+      (fun b hb => by rw [hget] at hb; cases hb; exact LeafPath.uniqAlong rest v hleaf)
+      (fun a ha => (hshape a ha).1) hver
+  · exact stale_copy_never_wins (outbound c pub) c k0 rest hk huc y hout hyo hshape (by omega)
 
 /-- The full-strength statement (also for dictionary values) is FALSE of the code: version
     keys are the leaf paths of the NEW value, so republishing a variable as a dictionary
@@ -169,8 +247,48 @@ theorem lookup_missing (layers : List Dict) (k : String) (h : ∀ d ∈ layers, 
     simp only [viewLookup, h d (List.mem_cons_self)]
     exact ih (fun d' hd => h d' (List.mem_cons_of_mem _ hd))
 
-/-- non-vacuity: flat, unique-key contexts exist and the rule distinguishes them. -/
-example : get? (mergeByVersion ⟨[("x", .num 1)], [("x", 2)]⟩ ⟨[("x", .num 7)], [("x", 1)]⟩).data "x" = some (.num 1) := by
-  apply stale_copy_never_wins <;> simp [FlatD, UniqueKeys, stripInternal, Dict.erase, Val.isObj, Dict.get?, ver]
+/-! ### non-vacuity -/
+
+/-- flat: a stale copy (version 1) does not replace the value with version 2 -/
+example : getPath (mergeByVersion ⟨[("x", .num 1)], [("x", 2)]⟩ ⟨[("x", .num 7)], [("x", 1)]⟩).data "x" [] = some (.num 1) := by
+  apply stale_copy_never_wins _ _ "x" [] (by decide) (by decide) (.num 1) rfl rfl
+  · intro b _; exact ⟨trivial, trivial⟩
+  · decide
+
+/-- nested: d = {x, y} was published before a fork (versions d.x = d.y = 1); the left branch republished the
+    leaf d.x (version 2), the right branch merely inherited the old dict: the stale d.x never wins -/
+def exL : Ctx := ⟨[("d", .obj [("x", .str "A"), ("y", .num 0)])], [("d.x", 2), ("d.y", 2)]⟩
+def exR : Ctx := ⟨[("d", .obj [("x", .num 0), ("y", .num 0)])], [("d.x", 1), ("d.y", 1)]⟩
+
+example : getPath (mergeByVersion exL exR).data "d" ["x"] = some (.str "A") := by
+  apply stale_copy_never_wins exL exR "d" ["x"] (by decide) (by decide) (.str "A") rfl rfl
+  · intro b hb
+    simp [exR, Dict.get?] at hb; subst hb
+    exact ⟨by simp [NoLeafAbove, Dict.get?], by simp [UniqAlong, UniqueKeys, Dict.get?]⟩
+  · decide
+
+example : getPath (mergeByVersion exR exL).data "d" ["x"] = some (.str "A") := by
+  apply newer_value_wins exR exL "d" ["x"] (by decide) (by decide) (.str "A") rfl rfl
+  · intro b hb
+    simp [exL, Dict.get?] at hb; subst hb
+    simp [UniqAlong, UniqueKeys, Dict.get?]
+  · intro a ha
+    simp [exR, Dict.get?] at ha; subst ha
+    simp [NoLeafAbove, Dict.get?]
+  · decide
+
+example : ShapeOK "d" ["x"] exL ∧ ShapeOK "d" ["x"] exR := by
+  constructor <;> simp [ShapeOK, exL, exR, UniqueKeys, Dict.get?, LeafPath, Val.isObj]
+
+/-- the hypotheses of `later_publish_wins_partial` for a nested republication that DROPS a leaf (d = {y: "B"}
+    over an inherited d = {x: 0, y: 0}): the published leaf d.y wins in both orders -/
+example :
+    getPath (mergeByVersion exR (outbound exR [("d", .obj [("y", .str "B")])])).data "d" ["y"] = some (.str "B") ∧
+    getPath (mergeByVersion (outbound exR [("d", .obj [("y", .str "B")])]) exR).data "d" ["y"] = some (.str "B") := by
+  apply later_publish_wins_partial exR [("d", .obj [("y", .str "B")])] "d" ["y"] (.obj [("y", .str "B")])
+    (by decide) rfl (by decide) (by decide) (by decide)
+  intro a ha
+  simp [exR, Dict.get?] at ha; subst ha
+  exact ⟨by simp [NoLeafAbove, Dict.get?], by simp [UniqAlong, UniqueKeys, Dict.get?]⟩
 
 end Mistral.Props.C05
